@@ -26,11 +26,11 @@ class C15(RailsProp):
     id = "C15"
     level = "exploration"
     technique = "deterministic simulation: several conversations as asyncio tasks (or sequentially interleaved) on one shared LLMRails instance under a virtual-time loop with seeded LLM/action latencies; differential against each conversation replayed alone on a fresh instance"
-    rule = ("one run = one configuration, 2-4 conversations of 1-4 turns (own texts, some crafted so that cache keys collide or roles are mimicked, own llm_params temperature), "
+    rule = ("one run = one configuration, 2-4 conversations of 1-4 turns (own texts, some crafted so that cache keys collide or roles are mimicked, some pairs beginning with the very same messages before going their own ways, own llm_params temperature), "
             "served on ONE instance either as a seeded sequential interleaving or as concurrent tasks with latencies from a grid (0..1 s, slow-peer x100 fault); "
             "non-trivial = runs where >= 2 LLM calls of different conversations overlapped in time, or two distinct message lists of the scenario share a cache key; "
             "distinct = distinct hash of the cross-conversation order of seam events")
-    expected_probes = ["llm_calls_overlapped", "llm_params_blocks_overlapped", "cache_key_collision_in_scenario", "sequential_interleaving", "concurrent_execution"]
+    expected_probes = ["twin_prefix_conversations", "llm_calls_overlapped", "llm_params_blocks_overlapped", "cache_key_collision_in_scenario", "sequential_interleaving", "concurrent_execution"]
     quick_runs = 320
     thorough_runs = 40000
     chunk = 4
@@ -53,9 +53,30 @@ class C15(RailsProp):
             conv["start"] = d.choice(CONC_GRID, "start", c)
             conv["think"] = [d.choice(CONC_GRID, "think", c, t) for t in range(len(conv["turns"]))]
         # adversarial relation between two conversations: cache-key collisions / role mimicry
-        adv = d.weighted([("none", 5), ("sep", 3), ("role", 2)], "adv") if colang == "1.0" else "none"
+        adv = d.weighted([("none", 5), ("sep", 3), ("role", 2), ("twin", 3)], "adv") if colang == "1.0" else "none"
         sc["adversarial"] = adv
-        if adv != "none" and n >= 2:
+        if adv == "twin":
+            # two conversations that begin with the very same messages (two users typing the same opening) and then
+            # go their own ways: the instance's events cache holds ONE entry for the shared prefix, written and read by both
+            a, b = sc["convs"][0], sc["convs"][1]
+            for conv, c in ((a, 0), (b, 1)):
+                while len(conv["turns"]) < 2:
+                    t = len(conv["turns"])
+                    tk = convo.tok(c, t)
+                    conv["turns"].append({"tok": tk, "text": "topic %d then %s" % (t % 3, tk)})
+                    sc["intents"][tk] = "free"
+                    conv["think"] = list(conv.get("think", [])) + [0.0]
+            k = d.randint(1, min(len(a["turns"]), len(b["turns"])) - 1, "twin-k")
+            for t in range(k):
+                b["turns"][t]["text"] = a["turns"][t]["text"]
+                b["turns"][t]["tok"] = a["turns"][t]["tok"]
+            sc["twin_prefix"] = k
+            if d.chance(0.7, "twin-plain"):
+                # no per-request options on the twins: with options the cache key contains the options message (see F18)
+                for conv in (a, b):
+                    for turn in conv["turns"]:
+                        turn.pop("temperature", None)
+        elif adv != "none" and n >= 2:
             # conversation 0 is "resumed" on this instance: its first request carries a history that was
             # not served here (stateless client, another replica) and whose cache key equals the key of
             # conversation 1's genuine history [user B0, assistant RB0]
@@ -78,7 +99,17 @@ class C15(RailsProp):
         if sc["family"] == "seq":
             slots = [c for c, conv in enumerate(sc["convs"]) for _ in conv["turns"]]
             sc["order"] = d.shuffle(slots, "order")
-            if adv != "none" and sc["order"].index(0) < sc["order"].index(1):
+            if adv == "twin" and d.chance(0.6, "twin-order"):
+                # both conversations pass the shared prefix before either goes on (X1 Y1 X2 Y2 ...)
+                k = sc["twin_prefix"]
+                rest = list(sc["order"])
+                head = []
+                for c in (0, 1):
+                    for _ in range(k):
+                        rest.remove(c)
+                        head.append(c)
+                sc["order"] = d.shuffle(head, "twin-head") + rest
+            elif adv not in ("none", "twin") and sc["order"].index(0) < sc["order"].index(1):
                 i, j = sc["order"].index(0), sc["order"].index(1)
                 sc["order"][i], sc["order"][j] = 1, 0
         sc["lat_mode"] = "conc"
@@ -216,6 +247,8 @@ class C15(RailsProp):
         collisions = _key_collisions(sc, results)
         if collisions:
             out.probe("cache_key_collision_in_scenario")
+        if sc.get("adversarial") == "twin":
+            out.probe("twin_prefix_conversations")
         # per conversation reference on a fresh instance
         per_conv_calls = {}
         for cl in calls:
@@ -229,9 +262,15 @@ class C15(RailsProp):
             got_replies, ref_replies = results.get(c, []), rres.get(c, [])
             tr.log("ref", c, ref_replies)
             coll = [k for k in collisions if c in k[1]]
+            twin = None
+            if sc.get("adversarial") == "twin" and c in (0, 1):
+                # F18: the events-cache key contains the per-request options message, so a conversation whose consecutive
+                # requests carry different options never finds its own history - unless a twin left a matching entry
+                temps = [[t.get("temperature") for t in sc["convs"][x]["turns"]] for x in (0, 1)]
+                twin = "twin-prefix-options-vary" if any(ts[i] != ts[i - 1] for ts in temps for i in range(1, len(ts))) else "twin-prefix"
             for t, (g, r) in enumerate(zip(got_replies, ref_replies)):
                 if g != r:
-                    why = "cache-collision" if coll else ("overlap" if any(x.n in overlapped_calls for x in got_calls) else "no-overlap")
+                    why = "cache-collision" if coll else twin if twin else ("overlap" if any(x.n in overlapped_calls for x in got_calls) else "no-overlap")
                     out.violate("reply-differs", "%s:%s" % (cc, why),
                                 "conversation %d turn %d: shared instance replied %r, alone on a fresh instance it replies %r%s"
                                 % (c, t, g, r, ("; colliding cache keys: %r" % (coll[0][0],)) if coll else ""))
@@ -240,7 +279,7 @@ class C15(RailsProp):
             rp = [(x.task, x.prompt if isinstance(x.prompt, str) else repr(x.prompt)) for x in ref_calls]
             if gp != rp:
                 k = next((i for i, (a, b) in enumerate(zip(gp, rp)) if a != b), min(len(gp), len(rp)))
-                why = "cache-collision" if coll else ("overlap" if any(x.n in overlapped_calls for x in got_calls) else "no-overlap")
+                why = "cache-collision" if coll else twin if twin else ("overlap" if any(x.n in overlapped_calls for x in got_calls) else "no-overlap")
                 a = gp[k] if k < len(gp) else None
                 b = rp[k] if k < len(rp) else None
                 out.violate("prompts-differ", "%s:%s" % (cc, why),
